@@ -3,7 +3,7 @@ import vlib
 import bspec
 from gen import hard, problems
 
-KINDS = ["pattern", "pattern", "insert", "gcwin", "gcwin", "gcglobal", "cds", "stop", "keep", "keep_idx", "keep_edits",
+KINDS = ["pattern", "pattern", "insert", "gcwin", "gcwin", "gcglobal", "cds", "cds", "stop", "keep", "keep_idx", "keep_edits",
          "change", "change_idx", "change_obj", "change_min", "sequence", "choice", "terminal", "length", "rare", "cai",
          "kmers", "hairpin", "regex"]
 
